@@ -298,8 +298,14 @@ class Slip32KeyDeserializer:
         depth_idx = 0
         path_idx = depth_idx + Bip32Depth.FixedLength()
 
-        # Get back depth and path
+        # Get back depth and check the total length (depth, path, chain code, 33-byte key)
+        if len(ser_key_bytes) == 0:
+            raise ValueError("Invalid extended key (no bytes)")
         depth = ser_key_bytes[depth_idx]
+        # The key field is always 33-byte long (compressed public key, or private key with a zero byte prepended)
+        exp_len = path_idx + (depth * Bip32KeyIndex.FixedLength()) + Bip32ChainCode.FixedLength() + 33
+        if len(ser_key_bytes) != exp_len:
+            raise ValueError(f"Invalid extended key (wrong length: {len(ser_key_bytes)}, expected: {exp_len})")
         path = Bip32Path()
         for i in range(depth):
             key_index_bytes = ser_key_bytes[path_idx + (i * Bip32KeyIndex.FixedLength()):
